@@ -2,9 +2,10 @@
    Statements only; proofs in Proofs/HllCodecProofs.v.  Spec/HllLayout.v holds the spec encoders
    (written from the format description).
    PARTIAL: proved for the two LIST variants (compact: `count` coupons; updatable: all 1 << lgArr
-   slots, zeros empty).  For the other variants (set compact in any order / updatable table; Hll4,
-   Hll6, Hll8 arrays with or without the COMPACT flag, out-of-order flag, cur_min > 0, compact aux
-   list with either lgArr byte) the statement
+   slots, zeros empty) and for EVERY Hll8 array variant (any flags byte -- COMPACT, EMPTY,
+   OUT_OF_ORDER set or not --, any lgArr byte, any numAtCurMin / auxCount fields, trailing bytes).
+   For the other variants (set compact in any order / updatable table; Hll4 and Hll6 arrays) the
+   statement
        hll_deserialize (spec_encode v a) = Ok s /\ abstraction of s = a
    is not proved; it is checked by the foreign-image oracle (Corr/Hll.v foreign_ok) on images built by
    the generator's independent encoder.  NOT read back (known finding C13-hll-updatable-hll4-aux):
@@ -21,6 +22,21 @@ Proof. exact list_variants_read_back. Qed.
 Theorem c13_hll_list_is_wellformed :
   forall cs, NoDup cs -> Forall valid cs -> (length cs < 8)%nat -> ListInv (list_of_coupons cs) cs.
 Proof. exact list_of_coupons_inv. Qed.
+
+(* every Hll8 array image is read back: the registers are the k bytes of the register block whatever
+   the COMPACT flag says (repaired defect D4), num_zeros is recomputed, the out-of-order flag is the
+   flag bit, the estimator fields are the three 8-byte patterns *)
+Theorem c13_hll_hll8_variants_partial :
+  forall lgk lg_arr flags cm hipb q0b q1b num auxc regs tail,
+  4 <= lgk <= 21 -> length hipb = 8%nat -> length q0b = 8%nat -> length q1b = 8%nat ->
+  length regs = N.to_nat (2 ^ lgk) -> (forall v, In v regs -> v <= 63) ->
+  exists a, hll_deserialize ([HLL_PREINTS; SER_VER; FAMILY_HLL; lgk; lg_arr; flags; cm; mode_byte MODE_HLL T8]
+                             ++ hipb ++ q0b ++ q1b ++ le_bytes 4 num ++ le_bytes 4 auxc ++ regs ++ tail)
+            = Ok (mkSketch lgk (MArr8 a)) /\
+    a8_lgk a = lgk /\ (forall j, a8_get a j = if j <? 2 ^ lgk then nth (N.to_nat j) regs 0 else 0) /\
+    a8_nz a = N.of_nat (length (filter (fun v => v =? 0) regs)) /\
+    a8_est a = est_of_image hipb q0b q1b (negb (N.land flags OOO_FLAG =? 0)).
+Proof. exact hll8_variants_read_back. Qed.
 
 (* array images carrying the COMPACT flag (what toCompactByteArray emits; defect D4) and images
    without it are read alike: the model's reader does not consult the flag for the register block *)
